@@ -6,6 +6,8 @@ CONSTANTS
   RepackCommitBeforeFsync = FALSE
   RepackUnlinkOldFirst = TRUE
   SeekBackWithoutTruncate = FALSE
+  RepackNoIntermediateCommit = FALSE
+  ImportFsyncOnlyLast = FALSE
   DeleteIndexFirst = FALSE
 INVARIANT Recoverable
 INVARIANT KeysUnique
